@@ -1,7 +1,7 @@
 (** C08  DPoS finality.  Only statements, each closed by [exact] of a lemma proved in
-    Dpos/LibProofs.v, Dpos/LibQuorum.v or Dpos/ProtocolProofs.v, followed by [Print Assumptions]. *)
+    Dpos/LibProofs.v or Dpos/ProtocolProofs.v, followed by [Print Assumptions]. *)
 From Coq Require Import ZArith List Bool.
-From Verif Require Import Dpos.Lib Dpos.LibProofs.
+From Verif Require Import Dpos.Lib Dpos.LibProofs Dpos.Protocol Dpos.ProtocolProofs.
 Import ListNotations.
 Open Scope Z_scope.
 
@@ -11,3 +11,41 @@ Theorem C08_lib_monotone : forall size self evs1 evs2,
   lib_no (run (init_node size self) evs1) <= lib_no (run (init_node size self) (evs1 ++ evs2)).
 Proof. exact lib_monotone. Qed.
 Print Assumptions C08_lib_monotone.
+
+(** A block numbered at or below the LIB is refused: the node is unchanged. *)
+Theorem C08_block_le_lib_refused : forall nd blk,
+  k_no blk <= lib_no nd -> fst (deliver nd blk) = nd.
+Proof. exact block_le_lib_refused. Qed.
+Print Assumptions C08_block_le_lib_refused.
+
+(** No delivery replaces a main-chain block at or below the LIB; a reorganisation whose
+    fork point is below the LIB is vetoed and changes neither chain, status nor saved status. *)
+Theorem C08_reorg_below_lib_refused : forall nd blk nd' o,
+  deliver nd blk = (nd', o) ->
+  (forall h, 0 <= h <= lib_no nd -> main_at nd' h = main_at nd h \/ main_at nd h = None) /\
+  (o = OVeto -> nd_main nd' = nd_main nd /\ nd_st nd' = nd_st nd /\ nd_saved nd' = nd_saved nd).
+Proof. exact reorg_below_lib_refused. Qed.
+Print Assumptions C08_reorg_below_lib_refused.
+
+(** Never undone: a main-chain block at or below a LIB the node has reported keeps its
+    height on the node's main chain after any further deliveries and restarts. *)
+Theorem C08_finalized_never_undone : forall size self evs1 evs2 h b,
+  0 <= h <= lib_no (run (init_node size self) evs1) ->
+  main_at (run (init_node size self) evs1) h = Some b ->
+  main_at (run (init_node size self) (evs1 ++ evs2)) h = Some b.
+Proof. exact finalized_never_undone. Qed.
+Print Assumptions C08_finalized_never_undone.
+
+(** The global agreement clause is false of the protocol as implemented: one Byzantine
+    producer out of four (f < n/3) and an adversarial schedule make two correct nodes
+    report irreversible blocks on conflicting branches (F14: Confirms is never validated). *)
+Theorem C08_agreement_refuted :
+  exists h w, prun (init_world 4 [3]) h = Some w /\ few_faults w = true /\ ~ agreement w.
+Proof. exact agreement_refuted. Qed.
+Print Assumptions C08_agreement_refuted.
+
+(** ... and also when the Byzantine producer's Confirms windows are honest-sized (F14b). *)
+Theorem C08_agreement_refuted_equivocation_only :
+  exists w, prun (init_world 4 [3]) f14b_history = Some w /\ few_faults w = true /\ ~ agreement w.
+Proof. exact agreement_refuted_equivocation_only. Qed.
+Print Assumptions C08_agreement_refuted_equivocation_only.
